@@ -871,7 +871,8 @@ class TypesCodeGenerator:
             ],
         )
 
-        self._add_special("ResponseErrorMessage", ["error", "jsonrpc"])
+        # `id` is null when the request could not be read: always written.
+        self._add_special("ResponseErrorMessage", ["id", "error", "jsonrpc"])
 
         for request in lsp_mode.requests:
             class_name = _get_class_name(request)
